@@ -107,6 +107,10 @@ impl Layout {
         &self.hole_to_starts
     }
 
+    pub fn has_pending_holes(&self) -> bool {
+        !self.pending_holes.is_empty()
+    }
+
     pub fn get_last_region(&self) -> Option<(usize, &Region)> {
         self.start_to_region
             .last_key_value()
